@@ -217,6 +217,17 @@ let run mode (line : string) : string =
   | "sh_script" -> (match x with A h -> (match sh_script (bytes_of_atom h) with
         | None -> "none"
         | Some l -> to_string (L (List.map (fun ws -> L (List.map (fun w -> A (atom_of_bytes w)) ws)) l))) | _ -> failwith "sh_script")
+  | "lex" | "lex_all" ->
+    (match x with
+     | A h ->
+       let ty = function EMPTY -> "EMPTY" | BOOLEAN -> "BOOLEAN" | END -> "END" | WS -> "WS" | COMMENT -> "COMMENT"
+                       | QUOTED -> "QUOTED" | PIPEQUOTE -> "PIPEQUOTE" | DIGIT -> "DIGIT" | BAREWORD -> "BAREWORD" | PUNCT -> "PUNCT" in
+       (match (if mode = "lex" then lex else lex_all) (bytes_of_atom h) with
+        | None -> "err"
+        | Some toks -> "ok " ^ to_string (L (List.map (fun t ->
+            L [A (ty t.typ); A (atom_of_bytes t.frag); A (string_of_int (int_of_n t.line));
+               A (string_of_int (int_of_n t.col)); A (string_of_int (int_of_n t.off))]) toks)))
+     | _ -> failwith "lex")
   | "zdec" -> (match x with A s -> string_of_z (z_of_string s) | _ -> failwith "zdec")
   | _ -> failwith ("mode " ^ mode)
 
